@@ -7,6 +7,7 @@ mod jets;
 mod layout;
 mod prog;
 mod text;
+mod total;
 
 use std::io::{BufRead, BufReader, BufWriter, Write};
 use std::panic::{catch_unwind, AssertUnwindSafe};
@@ -32,6 +33,7 @@ fn handle(case: &J) -> J {
         "layout_type" => layout::layout_type(case),
         "layout_val" => layout::layout_val(case),
         "prog" => prog::prog(case),
+        "total" => total::total(case),
         "type_text" => text::type_text(case),
         "value_text" => text::value_text(case),
         "valmap" => text::valmap(case),
